@@ -365,10 +365,11 @@ class Ctx:
         spec = [m for m in items if m.get("prop") == "SPEC"]
         if spec:
             raise MachineryError("the specification contradicts itself on a logged case (not a verdict on the code): %s" % json.dumps(spec[0])[:1500])
-        mine = [m for m in items if m.get("prop", self.prop) == self.prop]
+        # a panic or non-termination observed by any driver (prop C20) fails the check that hit it
+        mine = [m for m in items if m.get("prop", self.prop) in (self.prop, "C20")]
         kf = load_known_findings()
         for m in mine:
-            k = match_known(kf, self.prop, m)
+            k = match_known(kf, m.get("prop", self.prop), m)
             if k is not None:
                 self.known.append((k, m))
                 continue
